@@ -126,6 +126,14 @@ func (in *Interp) binop(op token.Token, x, y Value, xt, yt types.Type) Value {
 	case *StrV:
 		b := y.(*StrV)
 		if a.opaque || b.opaque {
+			// formatted text is never the subject: concatenation stays opaque, and a
+			// formatted string is taken to be non-empty when compared with ""
+			switch {
+			case op == token.ADD:
+				return &StrV{opaque: true, tag: a.tag + b.tag}
+			case (op == token.EQL || op == token.NEQ) && ((a.opaque && !b.opaque && len(b.b) == 0) || (b.opaque && !a.opaque && len(a.b) == 0)):
+				return ts.Bool(op == token.NEQ)
+			}
 			panic(in.unsupported("operation on opaque string " + a.tag + b.tag))
 		}
 		switch op {
